@@ -864,6 +864,85 @@ let run_case (fn : string) : unit =
            kvhist (cfg_plain (z_of_small (if mode = "cb" then 2 else 0)) bf) { runp = run_plain } None rd_z
              (fun _ v -> pr_opt pr_z v)
        | _ -> failwith "bad_mode")
+  | "mast" ->
+      (* node-level tree (Mast.v): status, height, size after every operation; the layout at every flush *)
+      let bf = rd_z () in let nops = rd_int () in
+      let twins = (next () = "tw") in
+      let spec = Buffer.create 256 in
+      let sp s = Buffer.add_char spec ' '; Buffer.add_string spec s in
+      let t : (sval * z) list ref = ref [] in     (* Tree.v: the sorted association list *)
+      let m = ref (mast_empty bf) in
+      let dead = ref false in
+      let fuel = nat_of_int 300 in
+      let rec int_of_nat = function O -> 0 | S n -> 1 + int_of_nat n in
+      let hexs (b : z list) = String.concat "" (Stdlib.List.map (fun x -> Printf.sprintf "%02x" (int_of_z x)) b) in
+      let keytok = function
+        | VInt z -> "I" ^ string_of_z z
+        | VReal r -> "R" ^ string_of_z r
+        | VText b -> "Tx" ^ hexs b
+        | VBlob b -> "Bx" ^ hexs b
+        | VNull -> "N" in
+      let rec shape_str = function
+        | SNil -> "-"
+        | SNode items ->
+            "[" ^ String.concat "" (Stdlib.List.map (fun (l, k) ->
+                     shape_str l ^ (match k with Some k -> "," ^ keytok k ^ "," | None -> "")) items) ^ "]" in
+      let pr_hs () = pr ("h" ^ string_of_int (int_of_nat (!m).m_height)); pr ("s" ^ string_of_z (!m).m_size) in
+      let pr_items l = pr (string_of_int (Stdlib.List.length l));
+        Stdlib.List.iter (fun (k, (v : z)) -> pr (keytok k ^ ":" ^ string_of_z v)) l in
+      let is_empty () = ((!m).m_size = Z0) in
+      for _ = 1 to nops do
+        match next () with
+        | "X" -> ()
+        | _ when !dead -> failwith "op_after_dead"
+        | "I" ->
+            let k = rd_sval () in let v = rd_z () in
+            (match mast_insert !m k v with
+             | None -> pr "P"; dead := true
+             | Some m' -> m := m'; pr "ok"; pr_hs ());
+            t := t_insert k v !t
+        | "D" ->
+            let k = rd_sval () in
+            (match t_get k !t with None -> sp "E" | Some _ -> sp "ok"; t := t_delete k !t);
+            (match mast_get !m k with
+             | None -> pr "E"
+             | Some _ -> (match mast_delete !m k with None -> pr "E" | Some m' -> m := m'; pr "ok"));
+            pr_hs ()
+        | "G" ->
+            let k = rd_sval () in
+            (match t_get k !t with None -> sp "_" | Some v -> sp ("S" ^ string_of_z v));
+            (match mast_get !m k with None -> pr "_" | Some v -> pr "S"; pr_z v);
+            pr_hs ()
+        | "F" -> pr (shape_str (shape_l (!m).m_root)); pr_hs ()
+        | "L" ->
+            pr (shape_str (shape_l (!m).m_root));
+            m := mast_load (!m).m_root (!m).m_height (!m).m_size (!m).m_bf;
+            pr_hs ()
+        | "SF" ->
+            sp (String.concat "," (Stdlib.List.map (fun (k, v) -> keytok k ^ ":" ^ string_of_z v) !t) ^ ";");
+            pr_items (c_walk_fwd fuel fuel (c_min fuel (mast_cursor !m))); pr "ok"; pr_hs ()
+        | "SC" ->
+            let k = rd_sval () in
+            sp (String.concat "," (Stdlib.List.map (fun (k, v) -> keytok k ^ ":" ^ string_of_z v) (t_ceil k !t)) ^ ";");
+            if is_empty () then (pr "0"; pr "ok")
+            else (pr_items (c_walk_fwd fuel fuel (c_ceil fuel k (mast_cursor !m))); pr "ok");
+            pr_hs ()
+        | "SB" ->
+            if is_empty () then (pr "0"; pr "ok")
+            else begin
+              match c_walk_bwd fuel fuel (c_max fuel (mast_cursor !m)) with
+              | (l, WOk) -> pr_items l; pr "ok"
+              | (l, WErr) -> pr_items l; pr "E"
+              | (_, WPanic) -> pr "P"
+            end;
+            pr_hs ()
+        | s -> failwith ("bad_mast_op_" ^ s)
+      done;
+      if not !dead then pr (shape_str (shape_l (!m).m_root));
+      (* specification view: what the sorted association list of Tree.v (the map the SQL-level
+         theorems are about) answers to every Delete / Get / forward scan of the history; not for
+         histories that mix numerically equal INTEGER and REAL keys (finding F-C07-2) *)
+      if not twins && not !dead then (pr "|"; pr (Buffer.contents spec))
   | "probe" -> pr "ok"   (* checked on the implementation alone; the expected answer is ok *)
   | "sqlhist" -> sqlhist ()
   | "schedhist" -> schedhist ()
